@@ -26,8 +26,7 @@ Check C14_sql_prefix_is_literal_renaming : forall p models plans,
   sql_core "" (literal_schema p models) (map (literal_plan p) plans)
   = match sql_core p models plans with
     | Ok o => Ok o
-    | Err (EBaseline x) => Err (EBaseline (literal_perr p x))
-    | Err e => Err e
+    | Err e => Err (match e with EBaseline x => EBaseline (literal_perr p x) | other => other end)
     end.
 
 (* non-vacuity: users / posts with a foreign key, prefix app_, a pending rebuild-forcing change on the FK-carrying table *)
